@@ -74,7 +74,33 @@ type Op struct {
 	S    string
 }
 
+// Opts are Repository options that must not change any modelled behaviour.
+type Opts struct {
+	SkipGC  bool
+	Warn    bool // HandleWarning set; the registry sends Warning headers
+	RefPage int  // ReferrerListPageSize
+	TagPage int  // TagListPageSize
+	MaxMeta bool // MaxMetadataBytes = 1 MiB instead of the default
+}
+
+func (o Opts) String() string {
+	return fmt.Sprintf("g%sw%sr%dt%dm%s", bit(o.SkipGC), bit(o.Warn), o.RefPage, o.TagPage, bit(o.MaxMeta))
+}
+
+var optsRx = regexp.MustCompile(`^g([01])w([01])r([0-9]+)t([0-9]+)m([01])$`)
+
+func parseOpts(s string) Opts {
+	m := optsRx.FindStringSubmatch(s)
+	if m == nil {
+		return Opts{}
+	}
+	r, _ := strconv.Atoi(m[3])
+	t, _ := strconv.Atoi(m[4])
+	return Opts{SkipGC: m[1] == "1", Warn: m[2] == "1", RefPage: r, TagPage: t, MaxMeta: m[5] == "1"}
+}
+
 type Case struct {
+	O           Opts
 	Main, Other string
 	Prof        fr.Profile
 	Plain       bool
@@ -111,7 +137,7 @@ func (c *Case) Line() string {
 	add := func(s ...string) { w = append(w, s...) }
 	add("H", common.Hex(c.Main), common.Hex(c.Other),
 		bit(c.Prof.DigHdr)+bit(c.Prof.Range)+bit(c.Prof.CLen)+bit(c.Prof.Mount)+bit(c.Prof.Referrers),
-		bit(c.Plain), strconv.Itoa(c.Rst), strconv.Itoa(len(c.MTs)))
+		bit(c.Plain)+c.O.String(), strconv.Itoa(c.Rst), strconv.Itoa(len(c.MTs)))
 	for _, m := range c.MTs {
 		add(common.Hex(m))
 	}
@@ -190,7 +216,10 @@ func ParseCase(line string) (*Case, error) {
 		return nil, errors.New("profile")
 	}
 	c.Prof = fr.Profile{DigHdr: pb[0] == '1', Range: pb[1] == '1', CLen: pb[2] == '1', Mount: pb[3] == '1', Referrers: pb[4] == '1'}
-	c.Plain = next() == "1"
+	if pl := next(); len(pl) > 0 {
+		c.Plain = pl[0] == '1'
+		c.O = parseOpts(pl[1:])
+	}
 	c.Rst = nexti()
 	for n := nexti(); n > 0; n-- {
 		c.MTs = append(c.MTs, common.UnHex(next()))
@@ -273,7 +302,9 @@ func errClass(err error) string {
 func od(d fr.Desc) ocispec.Descriptor {
 	return ocispec.Descriptor{MediaType: d.MT, Digest: digest.Digest(d.DG), Size: d.SZ}
 }
-func fd(d ocispec.Descriptor) fr.Desc { return fr.Desc{MT: d.MediaType, DG: string(d.Digest), SZ: d.Size} }
+func fd(d ocispec.Descriptor) fr.Desc {
+	return fr.Desc{MT: d.MediaType, DG: string(d.Digest), SZ: d.Size}
+}
 
 type opResult struct {
 	Str   string
@@ -286,10 +317,16 @@ type opResult struct {
 
 func newRepo(c *Case, g *fr.Registry) *remote.Repository {
 	repo := &remote.Repository{
-		Client:             g,
-		Reference:          registry.Reference{Registry: "registry.example", Repository: c.Main},
-		PlainHTTP:          c.Plain,
-		ManifestMediaTypes: c.MTs,
+		Client:               g,
+		Reference:            registry.Reference{Registry: "registry.example", Repository: c.Main},
+		PlainHTTP:            c.Plain,
+		ManifestMediaTypes:   c.MTs,
+		SkipReferrersGC:      c.O.SkipGC,
+		ReferrerListPageSize: c.O.RefPage,
+		TagListPageSize:      c.O.TagPage,
+	}
+	if c.O.MaxMeta {
+		repo.MaxMetadataBytes = 1 << 20
 	}
 	switch c.Rst {
 	case 1:
@@ -730,6 +767,16 @@ func execHistory(id string, c *Case) (nreq int) {
 	line := c.Line()
 	g := newRegistry(c)
 	repo := newRepo(c, g)
+	var gotWarnings []string
+	if c.O.Warn {
+		g.WarnEvery = 2
+		repo.HandleWarning = func(w remote.Warning) {
+			if w.Code != 299 || w.Agent != "-" {
+				run.OracleFail(id, "warning-pass-through", fmt.Sprintf("handler called with code %d agent %q", w.Code, w.Agent), replayOf(line))
+			}
+			gotWarnings = append(gotWarnings, w.Text)
+		}
+	}
 	ctx := context.Background()
 	t := &truth{blobs: map[string][]byte{}, mans: map[string]man{}, tags: map[string]string{}, other: map[string][]byte{}}
 	for _, i := range c.OtherIdx {
@@ -741,7 +788,15 @@ func execHistory(id string, c *Case) (nreq int) {
 	for i, o := range c.Ops {
 		g.CurOp = i
 		first := len(g.Log)
+		sentBefore, gotBefore := len(g.SentWarnings), len(gotWarnings)
 		res := doOp(ctx, c, repo, o)
+		if c.O.Warn {
+			sent, got := g.SentWarnings[sentBefore:], gotWarnings[gotBefore:]
+			if strings.Join(sent, "\x00") != strings.Join(got, "\x00") {
+				run.OracleFail(id, "warning-pass-through", fmt.Sprintf("op %d (%s): registry sent warnings %q, HandleWarning received %q", i, o.Kind, sent, got), replayOf(line))
+			}
+			run.Dist["warnings:delivered"] += len(got)
+		}
 		var tr []string
 		var hit *fr.Exchange
 		for k := first; k < len(g.Log); k++ {
@@ -823,9 +878,9 @@ func execHistory(id string, c *Case) (nreq int) {
 // ---------- Read/Seek scripts ----------
 
 type SeekOp struct {
-	K   string // r s c
-	N   int64
-	W   int
+	K string // r s c
+	N int64
+	W int
 }
 
 type SeekCase struct {
@@ -970,12 +1025,12 @@ func execSeek(id string, s *SeekCase) {
 
 type GramCase struct {
 	M, Repo, EK, Arg string
-	ID              int64
-	Digest, MD, MF  *string
-	CType           *string
-	CLen            int64 // -1 = absent
-	Range           *[2]int64
-	Body            string
+	ID               int64
+	Digest, MD, MF   *string
+	CType            *string
+	CLen             int64 // -1 = absent
+	Range            *[2]int64
+	Body             string
 }
 
 func optTok(p *string) string {
@@ -1320,6 +1375,13 @@ func genCase(r *common.Rand, nops int) *Case {
 	c := &Case{Main: common.Pick(r, []string{"app/web", "hello-world", "a/b/c"}), Other: common.Pick(r, []string{"lib/base", "src"})}
 	c.Prof = fr.Profile{DigHdr: r.Chance(2, 3), Range: r.Bool(), CLen: r.Chance(3, 4), Mount: r.Bool(), Referrers: r.Bool()}
 	c.Plain = r.Bool()
+	c.O = Opts{SkipGC: r.Bool(), Warn: r.Chance(1, 3), MaxMeta: r.Chance(1, 4)}
+	if r.Chance(1, 3) {
+		c.O.RefPage = 1 + r.Intn(5)
+	}
+	if r.Chance(1, 4) {
+		c.O.TagPage = 1 + r.Intn(5)
+	}
 	switch {
 	case r.Chance(1, 6):
 		c.Rst = 1
@@ -1542,7 +1604,9 @@ func canonicalCase(prof fr.Profile, rst int, plain bool) *Case {
 		c.Pool = append(c.Pool, PoolItem{Bytes: b, Digest: sha(b), Subj: sj, subj: subj})
 		return len(c.Pool) - 1
 	}
-	desc := func(i int, mt string) fr.Desc { return fr.Desc{MT: mt, DG: c.Pool[i].Digest, SZ: int64(len(c.Pool[i].Bytes))} }
+	desc := func(i int, mt string) fr.Desc {
+		return fr.Desc{MT: mt, DG: c.Pool[i].Digest, SZ: int64(len(c.Pool[i].Bytes))}
+	}
 	m0 := add([]byte(`{"schemaVersion":2,"n":0}`), nil)
 	m0d := desc(m0, mtOCIManifest)
 	withSubject := prof.Referrers && rst != 2
@@ -1659,7 +1723,7 @@ func genSeek(r *common.Rand) *SeekCase {
 			case 1:
 				off = int64(r.Intn(int(size)+2)) - size/2
 			default:
-				off = -int64(r.Intn(int(size) + 3)) + 1
+				off = -int64(r.Intn(int(size)+3)) + 1
 			}
 			s.Ops = append(s.Ops, SeekOp{K: "s", N: off, W: w})
 		default:
